@@ -166,6 +166,42 @@ def run_is_valid(node, seg):
     return bool(ok), list(errh.err_ele)
 
 
+_TREE = {}
+
+
+def run_is_valid_tree(node, seg):
+    """the same call reported through the error TREE handler (err_handler), as x12n_document does: element errors of the segment as (code, refdes position)"""
+    import io
+    import pyx12.x12file
+    if 'errh' not in _TREE:
+        import logging
+        logging.getLogger('pyx12').setLevel(logging.CRITICAL + 1)          # the tree handler logs every error it is given
+        logging.getLogger('pyx12').addHandler(logging.NullHandler())
+        errh = pyx12.error_handler.err_handler()
+        isa = 'ISA*00*          *00*          *ZZ*S              *ZZ*R              *200101*1200*U*00401*000000001*0*P*:~'
+        src = pyx12.x12file.X12Reader(io.StringIO(isa + 'GS*HC*S*R*20200101*1200*1*X*004010X098A1~ST*837*0001~'))
+        for s in src:
+            sid = s.get_seg_id()
+            if sid == 'ISA':
+                errh.add_isa_loop(s, src)
+            elif sid == 'GS':
+                errh.add_gs_loop(s, src)
+            elif sid == 'ST':
+                errh.add_st_loop(s, src)
+        _TREE['errh'] = errh
+    errh = _TREE['errh']
+    del errh.cur_st_node.children[:]
+    errh.add_seg(node, seg, 2, 4, None)
+    node.is_valid(seg, errh)
+    out = []
+    sn = errh.cur_seg_node
+    if getattr(errh, 'seg_node_added', False) and sn is not None and getattr(sn, 'id', '') == 'SEG':
+        for el in sn.elements:
+            for (code, _msg, _val) in el.errors:
+                out.append((str(code), el.ele_pos if el.ele_pos is not None else -1))
+    return out
+
+
 def syn_result(seg, syn):
     try:
         r = pyx12.syntax.is_syntax_valid(seg, syn)
@@ -200,6 +236,22 @@ def observe_case(node, syns, length, values, full):
     case['valid'] = ('true' if ok else 'false') if isinstance(ok, bool) else 'exc'
     case['base'] = base_ok
     case['errs'] = [{'c': str(e[0]), 'p': proj_refdes(e[3])} for e in extra]
+    if extra and (len(extra) > 1 or base_errs):
+        # several errors on one segment: the same call through the error TREE handler must report the same note errors
+        # (a second case, judged by the same clauses)
+        try:
+            node.syntax = []
+            tbase = run_is_valid_tree(node, seg)
+            node.syntax = saved
+            tall = run_is_valid_tree(node, seg)
+            for e in tbase:
+                if e in tall:
+                    tall.remove(e)
+            case['tree_errs'] = [{'c': c_, 'p': p_} for (c_, p_) in tall]
+        except Exception as ex:
+            case['tree_errs'] = [{'c': 'exc:' + type(ex).__name__, 'p': -1}]
+        finally:
+            node.syntax = saved
     return case
 
 
@@ -276,7 +328,10 @@ def _record_map(arg):
             if c.get('chk') is False:
                 skipped += 1
             c.update({'len': length, 'pr': sorted(present), 'fill': fill})
+            terrs = c.pop('tree_errs', None)
             cases.append(c)
+            if terrs is not None:
+                cases.append(dict(c, errs=terrs, text=c['text'] + '  [reported through err_handler]'))
         recs.append({'map': fname, 'path': node.get_path(), 'idx': idx, 'seg': node.id, 'n': n, 'mode': mode,
                      'xnotes': xn, 'enf': [{'stype': st, 'spos': sp} for (st, sp, _s) in enf],
                      'cols': [y + 1 for y in cols], 'cases': cases})
@@ -607,7 +662,8 @@ def do_replay(path):
         values = {p: sample_value(children[p]) for p in obj['pr']}
         c = observe_case(node, [e[2] for e in enf], obj['len'], values, True)
         c.update({'len': obj['len'], 'pr': obj['pr'], 'fill': 0})
-        rec['cases'] = [c]
+        terrs = c.pop('tree_errs', None)
+        rec['cases'] = [c] + ([dict(c, errs=terrs, text=c['text'] + '  [reported through err_handler]')] if terrs is not None else [])
     res = _tlc_batch(('replay', [rec]))
     if res.error or not res.payloads.get('REJECTS'):
         raise vlib.MachineryError('T_Syntax failed on the replay record\n' + (res.error or res.out[-1500:]))
